@@ -17,6 +17,7 @@ from vc.core import ctx
 from vc.runner import Task
 from . import nlp
 from .spec import Spec, E, Con
+from . import spec as spec_mod
 from .oracle import Oracle
 from .backend import ufun, unknown
 
@@ -344,7 +345,7 @@ def generated_clone_tasks(tier, prop, select=None):
         if select and not select(kw):
             continue
         inst = "%s/R%03d-%s-two-clones" % (prop, i, kw["method"])
-        out.append(Task(inst, guarded(lambda i=i: generated_clones(i, prop), inst), kind="bounded", bound=dict(generated=i, clones=2)))
+        out.append(Task(inst, guarded(lambda i=i: generated_clones(i, prop), inst), kind="bounded", bound=dict(generated=i, clones=2), replay=dict(harness="clones_of_probe", generated=i)))
     return out
 
 
@@ -365,10 +366,9 @@ def tasks(tier):
     for m in ("MS", "SS", "DC"):
         for Tk, t0k in ((("param",), ("param",)), (("param",), ("fixed", 0.5)), (("free", 1.5), ("param",))):
             inst = "C12/clones-own-horizon-symbol[%s,T=%s,t0=%s]" % (m, Tk[0], t0k[0])
-            kw = dict(method=m, N=2, M=2, degree=2, T=Tk, t0=t0k, params={"": [1]}, ode=E("f", None, ("x", "u", "t", "p")),
-                      constraints=[Con(E("ct", 1, ("x", "T", "t0", "t")), "le", 1.0), Con(E("cb", 1, (("at", "tf", "x"), "T", "t0")), "le", 2.0)],
-                      objective=[("at_tf", E("Mf", 1, ("x", "T", "t"))), ("value", E("VT", 1, ("T", "t0", "p")))])
-            out.append(Task(inst, guarded(lambda kw=kw, inst=inst: clones_of(dict(kw), inst), inst), kind="bounded", bound=dict(method=m, T=Tk[0], t0=t0k[0], clones=2)))
+            kw = spec_mod.own_horizon_kw(m, Tk, t0k)
+            out.append(Task(inst, guarded(lambda kw=kw, inst=inst: clones_of(dict(kw), inst), inst), kind="bounded", bound=dict(method=m, T=Tk[0], t0=t0k[0], clones=2),
+                            replay=dict(harness="clones_of_probe", method=m, T=list(Tk), t0=list(t0k))))
     out += generated_clone_tasks(tier, "C12")
     for i in range(60 if tier == "thorough" else 20):
         inst = "C12/R%03d-two-generated-stages" % i
